@@ -78,13 +78,16 @@ class Exec:
     def site(self, kind):
         return self.top.vc.site(self.prefix + kind) if False else self.vc.site(kind)
 
-    def oblige(self, kind, clause, guard, goal, tags=(), line=0, site=None):
+    def oblige(self, kind, clause, guard, goal, tags=(), line=0, site=None, skolems=None):
         if site is None:
             site = '%s%d' % (kind, self.vc.site(kind))
         tg = list(tags)
         if self.top.contract is not None:
             tg += [t for t in self.top.contract.tags if t not in tg]
-        return self.vc.oblige(kind, site, clause, guard, goal, tg, line, prefix=self.prefix)
+        o = self.vc.oblige(kind, site, clause, guard, goal, tg, line, prefix=self.prefix)
+        if skolems:
+            o.skolems = list(skolems)
+        return o
 
     # ---- operands ---------------------------------------------------------------------
     def op(self, o):
@@ -173,6 +176,8 @@ class Exec:
             back.update(l['backedges'])
         self.back = back
         self.edge = {}
+        self.named_out = {}
+        self.named = {}
         for b in order:
             blk = f.blocks[b]
             if b == 0:
@@ -184,6 +189,13 @@ class Exec:
                 ins = [(p, self.edge[(p, b)]) for p in blk['preds'] if (p, b) in self.edge and (p, b) not in back]
                 if not ins:
                     continue
+                # source-level names: a name survives a join only if all incoming paths agree on its value
+                maps = [self.named_out.get(p, {}) for p, _ in ins]
+                nm = {}
+                for k, v in maps[0].items():
+                    if all(k in m and m[k].term == v.term for m in maps[1:]):
+                        nm[k] = v
+                self.named = nm
                 if b in loops:
                     r, st = self.enter_loop(loops[b], ins)
                 else:
@@ -193,6 +205,7 @@ class Exec:
             self.reach = r
             self.st = st
             self.exec_block(blk, b in loops)
+            self.named_out[b] = self.named
         return self.rets
 
     def merge(self, b, ins):
@@ -267,16 +280,16 @@ class Exec:
             entry_vals[ph['n']] = V(t, vs[0].sort, ph['t'])
         tags_inv = lambda cl: cl.tags
         # invariant on entry
-        env0 = dict(self.named)
-        env0.update(self.param_env())
+        env0 = self.param_env()
+        env0.update(self.named)
         envE = dict(env0)
         for ph in phis:
             if ph.get('comment'):
                 envE[ph['comment']] = entry_vals[ph['n']]
         for i, cl in enumerate(lc.invariants):
             ev = self.spec(envE, pre_st, self.entry_state, self.entry_env)
-            g = self.eval_clause(ev, cl, 'invariant')
-            self.oblige('inv-entry', cl.text, pre_r, g.term, cl.tags, blk['instrs'][0].get('line', 0), site='loop%d.%d' % (loop['ordinal'], i))
+            g = self.eval_clause(ev, cl, 'invariant', 'goal')
+            self.oblige('inv-entry', cl.text, pre_r, g.term, cl.tags, blk['instrs'][0].get('line', 0), site='loop%d.%d' % (loop['ordinal'], i), skolems=ev.skolems)
         # header state: havoc what the body modifies
         st = pre_st.copy()
         mods = self.loop_modifies(loop, pre_st)
@@ -307,9 +320,10 @@ class Exec:
             self.ref_assume(v, st, r)
             if ph.get('comment'):
                 envH[ph['comment']] = v
+                self.named[ph['comment']] = v
         for i, cl in enumerate(lc.invariants):
             ev = self.spec(envH, st, self.entry_state, self.entry_env)
-            g = self.eval_clause(ev, cl, 'invariant')
+            g = self.eval_clause(ev, cl, 'invariant', 'assume', r)
             vc.assume(g.term, r)
         m0 = None
         if lc.decreases is not None:
@@ -336,8 +350,8 @@ class Exec:
         line = self.f.blocks[src]['instrs'][-1].get('line', 0)
         for i, cl in enumerate(lc.invariants):
             ev = self.spec(env, st, self.entry_state, self.entry_env)
-            g = self.eval_clause(ev, cl, 'invariant')
-            self.oblige('inv-pres', cl.text, cond, g.term, cl.tags, line, site='loop%d.back%d.%d' % (loop['ordinal'], k, i))
+            g = self.eval_clause(ev, cl, 'invariant', 'goal')
+            self.oblige('inv-pres', cl.text, cond, g.term, cl.tags, line, site='loop%d.back%d.%d' % (loop['ordinal'], k, i), skolems=ev.skolems)
         if lc.decreases is not None:
             ev = self.spec(env, st, self.entry_state, self.entry_env)
             m1 = [ev.eval(x) for x in lc.decreases.expr]
@@ -346,7 +360,9 @@ class Exec:
         else:
             self.oblige('decreases', 'missing decreases clause', cond, 'false', ['C03'], line, site='loop%d.back%d' % (loop['ordinal'], k))
 
-    def eval_clause(self, ev, cl, what):
+    def eval_clause(self, ev, cl, what, mode=None, guard='true'):
+        ev.mode = mode
+        ev.guard = guard
         try:
             g = ev.eval(cl.expr)
         except SpecError as e:
@@ -741,6 +757,8 @@ class Exec:
         if sort == 'Nil':
             sort = self.vc.sort_of(ins['t'])
         self.setv(ins, V(t, sort, ins['t']))
+        if ins.get('comment'):
+            self.named[ins['comment']] = self.vals[ins['n']]
 
     # ---- memory -------------------------------------------------------------------------------
     def nilcheck(self, ref, ins, what):
@@ -800,6 +818,8 @@ class Exec:
             raise Unsupported('IndexAddr on ' + xtd['k'])
         self.oblige('bounds', 'index in range', self.reach, '(and (<= 0 %s) (< %s (s.len %s)))' % (i.term, i.term, x.term), ['C03'], ins.get('line', 0))
         self.vc.assume('(and (<= 0 %s) (< %s (s.len %s)))' % (i.term, i.term, x.term), self.reach)
+        if not i.term.lstrip('-').isdigit() and ('Int', i.term) not in self.vc.inst_terms:
+            self.vc.inst_terms.append(('Int', i.term))
         self.vals[ins['n']] = Loc('elem', xtd['elem'], slice=x.term, index=i.term)
 
     def ref_assume(self, v, st, guard):
@@ -971,7 +991,7 @@ class Exec:
             elif s in ('F64', 'F32'):
                 t = '(%s %s %s)' % ({'<': 'fp.lt', '<=': 'fp.leq', '>': 'fp.gt', '>=': 'fp.geq'}[op], x.term, y.term)
             elif s == 'Str':
-                lt = vc.ufun('str.lt', ['Str', 'Str'], 'Bool')
+                lt = vc.ufun('gs.lt', ['Str', 'Str'], 'Bool')
                 a, b = (x.term, y.term) if op in ('<', '<=') else (y.term, x.term)
                 t = '(%s %s %s)' % (lt, a, b)
                 if op in ('<=', '>='):
@@ -984,7 +1004,7 @@ class Exec:
             raise Unsupported('boolean binop ' + op)
         if s == 'Str':
             if op == '+':
-                f = vc.ufun('str.concat', ['Str', 'Str'], 'Str')
+                f = vc.ufun('gs.concat', ['Str', 'Str'], 'Str')
                 self.setv(ins, V('(%s %s %s)' % (f, x.term, y.term), 'Str', ts))
                 vc.need_concat = True
                 return
@@ -1222,12 +1242,15 @@ class Exec:
         cname = short_fn(self.prog, callee)
         for i, cl in enumerate(cc.requires):
             ev = SpecEval(vc, cc.pkg, env, pre, None)
+            ev.mode = 'goal'
             try:
                 g = ev.eval(cl.expr)
             except SpecError as e:
                 raise ContractError('%s requires %r: %s' % (cname, cl.text, e))
-            self.oblige('pre', '%s requires %s' % (cname, cl.text), self.reach, g.term, cl.tags, line, site='%s.%d' % (site, i))
-            vc.assume(g.term, self.reach)
+            self.oblige('pre', '%s requires %s' % (cname, cl.text), self.reach, g.term, cl.tags, line, site='%s.%d' % (site, i), skolems=ev.skolems)
+            ev = SpecEval(vc, cc.pkg, env, pre, None)
+            ev.mode, ev.guard = 'assume', self.reach
+            vc.assume(ev.eval(cl.expr).term, self.reach)
         if not cc.nopanic and not cc.trusted:
             self.oblige('callee-may-panic', 'call of %s (contract lacks nopanic)' % cname, self.reach, 'false', ['C03'], line, site=site)
         # recursion: measure must decrease
@@ -1268,6 +1291,7 @@ class Exec:
             self.ref_assume(r, post, self.reach)
         for cl in cc.ensures:
             ev = SpecEval(vc, cc.pkg, renv, post, pre, env)
+            ev.mode, ev.guard = 'assume', self.reach
             try:
                 g = ev.eval(cl.expr)
             except SpecError as e:
@@ -1383,6 +1407,34 @@ def lex_less(m1, m0):
     return or_(*alts)
 
 
+def apply_lemma(vc, lm, argvs, guard, site='use', tags=(), line=0):
+    """use of a lemma: its requires become obligations at the use site, its ensures are assumed;
+    the lemma itself is verified separately (closure of the check)"""
+    if len(argvs) != len(lm.params):
+        raise ContractError('use %s: wrong number of arguments' % lm.name)
+    env = {}
+    for (pn, pt), av in zip(lm.params, argvs):
+        ts = resolve_type(vc.prog, lm.pkg, pt)
+        s = vc.sort_of(ts)
+        if av.sort != s:
+            raise ContractError('use %s: argument %s has sort %s, expected %s' % (lm.name, pn, av.sort, s))
+        env[pn] = V(av.term, s, ts)
+    for i, c in enumerate(lm.requires):
+        ev = SpecEval(vc, lm.pkg, env, None, None)
+        ev.mode = 'goal'
+        g = ev.eval(c.expr)
+        o = vc.oblige('lemma-pre', '%s.%d' % (site, i), 'use %s requires %s' % (lm.name, c.text), guard, g.term, list(tags), line)
+        o.skolems = list(ev.skolems)
+        ev = SpecEval(vc, lm.pkg, env, None, None)
+        ev.mode, ev.guard = 'assume', guard
+        vc.assume(ev.eval(c.expr).term, guard)
+    ev = SpecEval(vc, lm.pkg, env, None, None)
+    ev.mode, ev.guard = 'assume', guard
+    ens = and_(*[ev.eval(c.expr).term for c in lm.ensures])
+    vc.assume(imp(guard, ens))
+    vc.used_lemmas.add(lm.name)
+
+
 def verify_function(vc, func, contract):
     """generate all obligations of one function under its contract"""
     prog = vc.prog
@@ -1407,7 +1459,7 @@ def verify_function(vc, func, contract):
     if contract is not None:
         for cl in contract.requires:
             ev = SpecEval(vc, pkg, env, st, None)
-            g = ex.eval_clause(ev, cl, 'requires')
+            g = ex.eval_clause(ev, cl, 'requires', 'assume')
             vc.assume(g.term)
     # vacuity guard: the precondition must be satisfiable
     o = vc.oblige('cover', 'pre', 'precondition is satisfiable', 'true', 'true', [], func.line)
@@ -1427,11 +1479,26 @@ def verify_function(vc, func, contract):
         o.expect = 'sat'
         if contract is None:
             continue
+        for (site, lname, largs, ucond) in contract.uses:
+            if site not in ('all', 'exit'):
+                continue
+            if lname not in vc.cs.lemmas:
+                raise ContractError('use of unknown lemma %s' % lname)
+            evu = SpecEval(vc, pkg, renv, rst, st, env)
+            try:
+                avs = [evu.eval(a) for a in largs]
+            except SpecError as e:
+                raise ContractError('%s: use %s: %s' % (short_fn(prog, func.name), lname, e))
+            ug = cond
+            if ucond is not None:
+                ug = vc.define('usecond', 'Bool', and_(cond, evu.eval(ucond).term))
+            apply_lemma(vc, vc.cs.lemmas[lname], avs, ug, 'ret%d.use.%s' % (k, lname), contract.tags, line)
         for i, cl in enumerate(contract.ensures):
             ev = SpecEval(vc, pkg, renv, rst, st, env)
             ev.entry_alloc = a0
-            g = ex.eval_clause(ev, cl, 'ensures')
-            vc.oblige('post', 'ret%d.%d' % (k, i), cl.text, cond, g.term, cl.tags + [t for t in contract.tags if t not in cl.tags], line)
+            g = ex.eval_clause(ev, cl, 'ensures', 'goal')
+            o = vc.oblige('post', 'ret%d.%d' % (k, i), cl.text, cond, g.term, cl.tags + [t for t in contract.tags if t not in cl.tags], line)
+            o.skolems = list(ev.skolems)
     return ex
 
 
@@ -1448,9 +1515,13 @@ def verify_lemma(vc, lm):
         v = V(c, s, ts)
         vc.range_assume(v)
         env[pn] = v
+        if s == 'Int':
+            vc.inst_terms.append(('Int', c))
     ev = SpecEval(vc, lm.pkg, env, None, None)
+    ev.mode = 'assume'
     for cl in lm.requires:
         vc.assume(ev.eval(cl.expr).term)
+    ev.mode = None
     o = vc.oblige('cover', 'pre', 'lemma precondition is satisfiable', 'true', 'true', lm.tags, 0)
     o.expect = 'sat'
     if lm.induction:
@@ -1464,11 +1535,18 @@ def verify_lemma(vc, lm):
             for (pn, pt), a in zip(lm.params, args):
                 av = ev.eval(a)
                 env2[pn] = V(av.term, env[pn].sort, env[pn].ts)
+                if av.sort == 'Int' and ('Int', av.term) not in vc.inst_terms:
+                    vc.inst_terms.append(('Int', av.term))
             ev2 = SpecEval(vc, lm.pkg, env2, None, None)
             req = [ev2.eval(c.expr).term for c in lm.requires]
-            ens = [ev2.eval(c.expr).term for c in lm.ensures]
             m1 = [ev2.eval(x) for x in lm.decreases.expr]
-            vc.assume(imp(and_(lex_less(m1, m0), *req), and_(*ens)))
+            ihg = and_(lex_less(m1, m0), *req)
+            ev2.mode, ev2.guard = 'assume', ihg
+            ens = [ev2.eval(c.expr).term for c in lm.ensures]
+            vc.assume(imp(ihg, and_(*ens)))
     for i, cl in enumerate(lm.ensures):
-        g = ev.eval(cl.expr)
-        vc.oblige('lemma', 'ens%d' % i, cl.text, 'true', g.term, lm.tags, 0)
+        evg = SpecEval(vc, lm.pkg, env, None, None)
+        evg.mode = 'goal'
+        g = evg.eval(cl.expr)
+        o = vc.oblige('lemma', 'ens%d' % i, cl.text, 'true', g.term, lm.tags, 0)
+        o.skolems = list(evg.skolems)
